@@ -550,11 +550,13 @@ def encode_object(raw: bytes, encoding: str | None, level: int = 3) -> bytes:
 
 def parse_stream(raw: bytes) -> dict[str, Any]:
     """pyarrow's reading of some bytes: {"schema": Schema|None, "batches": [(batch, cm dict|None)], "tail": "clean"|"invalid"}
-    or {"bad": True} when `open_stream` raises."""
+    or {"bad": True, "other": bool} when `open_stream` raises (other = not ArrowInvalid / OSError)."""
     try:
         r = ipc.open_stream(io.BytesIO(raw))
     except (pa.ArrowInvalid, OSError):
-        return {"bad": True}
+        return {"bad": True, "other": False}
+    except Exception:  # noqa: BLE001 — e.g. ArrowNotImplementedError: not one of the retry types
+        return {"bad": True, "other": True}
     out: list[tuple[pa.RecordBatch, dict[bytes, bytes] | None]] = []
     tail = "clean"
     while True:
@@ -565,6 +567,9 @@ def parse_stream(raw: bytes) -> dict[str, Any]:
             break
         except (pa.ArrowInvalid, OSError):
             tail = "invalid"
+            break
+        except Exception:  # noqa: BLE001
+            tail = "other"
             break
         out.append((b, dict(md) if md is not None else None))
     return {"bad": False, "schema": r.schema, "batches": out, "tail": tail}
